@@ -466,6 +466,33 @@ class C14(F.Check):
               {"op": "as_raw_number", "units": "pct", "rep": "int32_t"})
         probe("pow_neg_i", "int32_t", [("int32_t", "x")], "return int_pow<-1>(meters(x)).in(pow<-1>(Meters{}));", "Negative exponent",
               {"op": "int_pow<-1>", "units": "m", "rep": "int32_t"})
+        # as_raw_number acceptance grid: "accepts only dimensionless quantities whose conversion to the unitless unit is policy-safe".
+        # Policy (documented, see C06): integral rep R and integer factor k are safe iff 2147 * k <= max(R); non-integer factors are
+        # refused for integral reps; floating reps accept every factor.
+        self.raw_grid = []
+        greps = F.INT_REPS + ["float", "double"] if self.tier == "thorough" else ["int8_t", "uint8_t", "int16_t", "uint16_t", "int32_t", "uint32_t", "int64_t", "double"]
+        for ct in greps:
+            s = sfx(ct)
+            a1 = [(ct, "x")]
+            if F.ct_is_float(ct):
+                facs = [(1000, 1), (10 ** 9, 1), (1, 100), (3, 7)]
+            else:
+                hi = F.ct_range(ct)[1]
+                t = hi // 2147
+                facs = sorted(set(f for f in (1, 2, 10, 1000, 10 ** 7, 10 ** 9, t, t + 1, 2 * t + 1) if 1 <= f < (1 << 63)))
+                facs = [(f, 1) for f in facs] + [(1, 100), (3, 2)]
+            for n, d in facs:
+                u = "decltype(Unos{} * mag<%dull>() / mag<%dull>())" % (n, d)
+                accept = F.ct_is_float(ct) or (d == 1 and (n == 1 or 2147 * n <= F.ct_range(ct)[1]))   # k == 1 is always exact
+                key = {"rep": ct, "unit": "%d/%d x unos" % (n, d), "op": "as_raw_number", "policy_accepts": accept}
+                k = F.Kernel("c14_rawgrid_%s_%d_%d" % (s, n, d), ct, a1, "return as_raw_number(make_quantity<%s>(x));" % u, key=key, family="as_raw_number_grid")
+                ks.append(k)
+                rn = None
+                if accept and d == 1 and not F.ct_is_float(ct):
+                    rn = ref("c14_ref_mulk_%s_%d" % (s, n), ct, a1, "return x * (%s)%dull;" % (ct, n))
+                self.raw_grid.append((k.name, rn, ct, accept, key))
+        probe("raw_ghzs_i", "int32_t", i32, "return as_raw_number(giga(hertz)(x) * seconds(y));", ".",
+              {"op": "as_raw_number", "units": "GHz*s (factor 10^9, overflow-risky for int32)", "rep": "int32_t"})
         self.programs = len(self.pairs)
         return ks
 
@@ -608,6 +635,17 @@ class C14(F.Check):
                 return T.TRUE, T.and_(T.not_(e.ub), T.eq(e.ret, T.const_bool(expect)))
             obs.append(F.Ob("closed:" + name, [], cfn, kind="closed", key=dict(key, expected=expect), kernels=[name], note=note))
         # negative probes
+        for name, rn, ct, accept, key in self.raw_grid:
+            def afn(K, name=name, accept=accept):
+                return T.TRUE, T.const_bool(bool(K[name].kernel.dropped) != accept)
+            obs.append(F.Ob("raw_accept:" + name, [], afn, kind="closed", key=key, kernels=[name],
+                            note="as_raw_number compiles exactly when the conversion to the unitless unit is policy-safe (observed at lowering)"))
+            if accept and rn and not K[name].kernel.dropped and not K[rn].kernel.dropped:
+                def vfn(K, x, name=name, rn=rn, ct=ct):
+                    a, r = K[name](x), K[rn](x)
+                    return T.TRUE, T.and_(same_bits(ct, a.ret, r.ret), T.eq(a.ub, r.ub))
+                obs.append(F.Ob("raw_value:" + name, [("x", F.ct_sort(ct))], vfn, routes=F.INT_ROUTES, key=key, kernels=[name, rn],
+                                note="accepted as_raw_number == x * k: same bits, same trap condition"))
         for name, pattern, key in self.probes:
             def pfn(K, name=name, pattern=pattern):
                 d = K[name].kernel.dropped
